@@ -1045,6 +1045,12 @@ Theorem C20_moisture_after_link_history : forall mws R P opsR opsP w mc by_mass 
 Proof. exact adjust_moisture_hist_is_adjust. Qed.
 Print Assumptions C20_moisture_after_link_history.
 
+Theorem C20_mix_moisture_after_link_history : forall n mws ins split opsR opsP w mc by_mass mwc strict,
+  mix_and_split_with_moisture_hist n mws ins split opsR opsP w mc by_mass mwc strict
+  = Some (mix_and_split_with_moisture n mws ins split w mc by_mass mwc strict).
+Proof. exact mix_and_split_with_moisture_hist_is. Qed.
+Print Assumptions C20_mix_moisture_after_link_history.
+
 (* the invariant behind it, for every history: the cached mass view is a view of the stream's current flow vector *)
 Theorem C20_mass_view_follows_unlink : forall ops, view_target (lrun linit ops) = ls_data (lrun linit ops).
 Proof. intros ops. apply PeanoNat.Nat.eqb_eq. exact (lrun_view_ok ops linit linit_view_ok). Qed.
@@ -1082,10 +1088,11 @@ Print Assumptions C20_vle_index_cache_valid.
    (empty) and 'l': the holder grows to ('L','g','l'), rows shift by one, the outlets are still the g and l rows *)
 Example C20_ex_vle_reused_multi_stream :
   let caches := [([false; true; true; false], [(1%nat, 0%nat); (2%nat, 1%nat)])] in
-  let cs := [mkVC (FStream 2 [20; 20]) (eq_rel 2 [1 # 2; 1 # 2]) false;
-             mkVC (FMulti [true; false; true; false] [[0; 0]; [0; 0]; [30; 10]; [0; 0]]) (eq_rel 2 [1 # 2; 1 # 2]) false] in
-  caches_valid caches /\ vhist_wf 2 (vinit [false; true; true; false] (zero_rows 2) caches) cs /  map fst (vle_hist 2 (vinit [false; true; true; false] (zero_rows 2) caches) cs)
-  = [Ok ([10; 10], [10; 10]); Ok ([15; 5], [15; 5])].
+  let cs := [mkVC (FStream 2 [20; 20]) (eq_rel 2%nat [1 # 2; 1 # 2]) false;
+             mkVC (FMulti [true; false; true; false] [[0; 0]; [0; 0]; [30; 10]; [0; 0]]) (eq_rel 2%nat [1 # 2; 1 # 2]) false] in
+  caches_valid caches /\ vhist_wf 2 (vinit [false; true; true; false] (zero_rows 2) caches) cs /\
+  map fst (vle_hist 2 (vinit [false; true; true; false] (zero_rows 2) caches) cs)
+  = [Ok ([20 # 2; 20 # 2], [20 # 2; 20 # 2]); Ok ([30 # 2; 10 # 2], [30 # 2; 10 # 2])].
 Proof.
   cbv zeta. split; [|split].
   - intros key p r. cbn [caches_get].
@@ -1097,5 +1104,6 @@ Proof.
 Qed.
 
 Example C20_ex_moisture_after_link_history :
-  view_okb (lrun linit [LMass; LLink; LUnlink; LMass]) = true /  ls_data (lrun linit [LMass; LLink; LUnlink; LMass]) = 1%nat.
+  view_okb (lrun linit [LMass; LLink; LUnlink; LMass]) = true /\
+  ls_data (lrun linit [LMass; LLink; LUnlink; LMass]) = 1%nat.
 Proof. vm_compute. split; reflexivity. Qed.
